@@ -6,6 +6,8 @@ IDS=${@:-$(ls /verif/seeded)}
 for d in $IDS; do
   D=/verif/seeded/$d
   P=$(python3 -c "import json; print(json.load(open('$D/meta.json'))['property'])")
+  X=$(grep "^$d " /verif/seeded/EXTRA_PROPS 2>/dev/null | cut -d' ' -f2- | tr ' ' ',')
+  [ -n "$X" ] && P="$P,$X"
   T=$(mktemp /tmp/seedtable-XXXXXX)
   MUTANT_LINES=6 /verif/bin/mutant.sh "$D/patch.diff" "$P" "$TIER" > "$T" 2>&1; rc=$?
   python3 - "$D" "$rc" "$P" "$TIER" "$T" <<'PY'
@@ -17,9 +19,10 @@ v=m.setdefault('verif',{})
 oracles=sorted(set('%s [%s]'%o for o in re.findall(r'oracle=(\S+) sig=(\S+)', out)))
 v['checks_run_'+tier]='bin/mutant.sh patch.diff %s %s -> exit %d' % (prop,tier,rc)
 v['caught_'+tier]= rc==1
+v['caught_by_'+tier]=[b[0] for b in re.findall(r'== (C\d+) exit=(\d+)', out) if b[1]=='1']
 v['oracles_'+tier]=oracles[:6]
 json.dump(m,open(dst+'/meta.json','w'),indent=1)
-print("%s %s caught=%s exit=%d %s" % (dst.split('/')[-1], tier, rc==1, rc, '; '.join(oracles[:3])))
+print("%s %s caught=%s by=%s exit=%d %s" % (dst.split('/')[-1], tier, rc==1, v['caught_by_'+tier], rc, '; '.join(oracles[:3])))
 PY
   rm -f "$T"
 done
